@@ -266,6 +266,19 @@ class Guards:
                     if all(cannot_be(o) for o in origins):
                         return isinstance(e.ops[0], ast.IsNot)
                 return None
+            if isinstance(e, ast.Compare) and len(e.ops) == 1 and isinstance(e.ops[0], (ast.Eq, ast.NotEq)) and seen is not None \
+                    and isinstance(e.left, ast.Name) and isinstance(e.comparators[0], ast.Constant) and not isinstance(e.comparators[0].value, bool):
+                # `tag == 3`: decided when every definition of the name that reaches under the valuation is a constant
+                nx = node_of(e.left)
+                if nx is not None and rd.defs_reaching(nx, e.left.id):
+                    origins = self._origins(e.left, nx, seen, rd, 0, vkey)
+                    if origins is not None and all(isinstance(o, ast.Constant) for o in origins):
+                        same = [o.value == e.comparators[0].value for o in origins]
+                        if all(same):
+                            return isinstance(e.ops[0], ast.Eq)
+                        if not any(same):
+                            return isinstance(e.ops[0], ast.NotEq)
+                return None
             if isinstance(e, ast.Name) and seen is not None and isinstance(e.ctx, ast.Load):
                 k = id(e)
                 if k in memo:
